@@ -890,10 +890,10 @@ class Arm(Robot):
             theta (np.ndarray[float], optional): configuration for joints. Defaults to None.
         """        
         end_effector_temp = self.FK(theta)
-        old_to_new = fsr.globalToLocal(end_effector_temp, new_home_global)
-        new_home = fsr.localToGlobal(self._end_effector_home, old_to_new)
+        old_to_new = end_effector_temp.inv() @ new_home_global
+        new_home = self._end_effector_home @ old_to_new
         self._end_effector_home = new_home
-        self._end_effector_home_local = fsr.globalToLocal(self._base_pos_global, new_home)
+        self._end_effector_home_local = self._base_pos_global.inv() @ new_home
         self._helper_determine_eef_to_last_joint()
         self._helper_update_body_screws()
         self.FK(self._theta)
@@ -902,7 +902,7 @@ class Arm(Robot):
     def restoreOriginalEE(self) -> None:
         """Restore the original End effector configuration of the arm."""
         self._end_effector_home = self._original_end_effector_home
-        self._end_effector_home_local = fsr.globalToLocal(self._base_pos_global, self._end_effector_home)
+        self._end_effector_home_local = self._base_pos_global.inv() @ self._end_effector_home
         self._helper_determine_eef_to_last_joint()
         self._helper_update_body_screws()
         self.FK(self._theta)
@@ -1427,7 +1427,7 @@ class Arm(Robot):
         """
         curpos = self._end_effector_pos_global.copy()
         curth = self._theta.copy()
-        original_home_local = fsr.globalToLocal(self._base_pos_global, self._original_end_effector_home)
+        original_home_local = self._base_pos_global.inv() @ self._original_end_effector_home
         self.initialize(new_base_pos_global, self.original_screw_list.copy(),
             self._end_effector_home_local, self.original_joint_poses_home)
         self._original_end_effector_home = new_base_pos_global @ original_home_local
